@@ -360,7 +360,8 @@ pub(super) async fn inscription(
       .flatten()
       .unwrap();
 
-    let output = if satpoint.outpoint == unbound_outpoint() {
+    let output = if satpoint.outpoint == unbound_outpoint() || satpoint.outpoint == OutPoint::null()
+    {
       None
     } else {
       Some(
